@@ -146,10 +146,12 @@ def call_id(g, q, form, prop=None):
         except TypeError:
             kernel.count("callform:unannotated-form-rejected-not-judged")
             return None
-    elif form == "from_expression" and X:
+    elif form == "from_expression" and (X or Z):
         ys = sorted(Y, key=str)
         zs = sorted(Z, key=str)
-        expr = P[sorted(X, key=str)](ys[0] if len(ys) == 1 and not zs else (ys if not zs else _dist(ys, zs)))
+        body = ys[0] if len(ys) == 1 and not zs else (ys if not zs else _dist(ys, zs))
+        # without treatments the query is a plain conditional P(Y | Z)
+        expr = P[sorted(X, key=str)](body) if X else P(body)
         ident = Identification.from_expression(query=expr, graph=g)
     else:
         form = "identify"
